@@ -56,6 +56,12 @@ BUFFERED_TIMES = {0: [(0.0, 0.01)],
                   3: [(3.0, 4.5), (4.1, 4.4)],               # root starts inside
                   4: [(4.99, 5.0)]}
 TIME_BUFFER = {"buffered": 1}
+# more distinct span ids than one default-size batch (1000): a re-ingest has
+# to recognise every stored id
+DATASETS["large"] = [("alpha" if k % 3 else "beta",
+                      [("r", None), ("a", 0), ("b", 1), ("c", 0)])
+                     for k in range(262)]
+BATCH_SIZE = {"large": 1000}
 ACTIONS_PV = [(ni, ug, se) for ni in (False, True) for ug in (False, True)
               for se in (False, True)]
 
@@ -99,7 +105,7 @@ def write_inputs(root, ds):
 data_holders:
   sql:
     db_uri: "sqlite:///{root}/store.db"
-    batch_size: 2
+    batch_size: {BATCH_SIZE.get(ds, 2)}
     time_buffer: {TIME_BUFFER.get(ds, 0)}
 data_sources:
   json:
@@ -287,8 +293,9 @@ def judge(ds, obs, ref_full, ref_obs, command, ni, ug, se, from_empty):
 def explore(tier, ctx, progress):
     pool.worker_setup()
     depth = 3 if tier == "quick" else 4
-    datasets = ["repeated", "dirty", "buffered"] if tier == "quick" else \
-        ["repeated", "dirty", "buffered", "distinct"]
+    datasets = ["repeated", "dirty", "buffered", "large"] \
+        if tier == "quick" else \
+        ["repeated", "dirty", "buffered", "large", "distinct"]
     commands = ["otel2pv"] if tier == "quick" else ["otel2pv", "otel2puml"]
     keep = impl_otel.scratch_dir()
     viol = []
